@@ -19,10 +19,14 @@ Class EqbSpec {A : Type} (f : A -> A -> bool) : Type :=
   EqbSpec (Result_eqb f g) := Result_eqb_spec f g eqb_spec_pf eqb_spec_pf.
 #[global] Instance EqbSpec_outcome {A} (f : A -> A -> bool) `{EqbSpec A f} : EqbSpec (outcome_eqb f) :=
   outcome_eqb_spec f eqb_spec_pf.
+#[global] Instance EqbSpec_list {A} (f : A -> A -> bool) `{EqbSpec A f} : EqbSpec (list_eqb f) :=
+  list_eqb_spec f eqb_spec_pf.
 #[global] Instance EqbSpec_prod {A B} (f : A -> A -> bool) (g : B -> B -> bool) `{EqbSpec A f} `{EqbSpec B g} :
   EqbSpec (prod_eqb f g) := prod_eqb_spec f g eqb_spec_pf eqb_spec_pf.
 
 Ltac destruct_eqb_spec f x y := destruct (eqb_spec_pf (f := f) x y).
+(* turn a boolean equality hypothesis [eqb a b = true] into [a = b] *)
+Ltac beq H := apply (reflect_eq_true (eqb_spec_pf _ _)) in H.
 
 Lemma eqb_true_iff {A} (f : A -> A -> bool) `{EqbSpec A f} x y : f x y = true <-> x = y.
 Proof. destruct (eqb_spec_pf (f:=f) x y); split; congruence. Qed.
